@@ -193,6 +193,91 @@ def _feval(t, u, td=None, delta=None):
     raise ValueError(f"term {t.k}")
 
 
+def _teval(t, env):
+    """evaluate a term of the timestamp class over concrete field values with the real datetime module (witness
+    evaluation: used to refute, never to prove)"""
+    import datetime as _dt
+    import math as _m
+    import operator as _o
+    k = t.k
+    if k == "const":
+        return t.a[0]
+    if k == "sym":
+        return env[t.a[0]]
+    if k == "builtin":
+        if t.a[0].endswith("timezone.utc"):
+            return _dt.timezone.utc
+        raise ValueError(f"builtin {t.a[0]}")
+    if k == "gamma":
+        return _teval(t.a[1], env) if _teval(t.a[0], env) else _teval(t.a[2], env)
+    if k == "kw":
+        raise ValueError("keyword outside a call")
+    if k == "un":
+        x = _teval(t.a[1], env)
+        return {"int": int, "-": lambda v: -v, "abs": abs, "float": float, "not": lambda v: not v, "bool": bool}[t.a[0]](x)
+    if k == "op":
+        o = t.a[0]
+        if o == "and":
+            return _teval(t.a[1], env) and _teval(t.a[2], env)
+        if o == "or":
+            return _teval(t.a[1], env) or _teval(t.a[2], env)
+        f = {"+": _o.add, "-": _o.sub, "*": _o.mul, "/": _o.truediv, "//": _o.floordiv, "%": _o.mod, "<": _o.lt, "<=": _o.le,
+             ">": _o.gt, ">=": _o.ge, "==": _o.eq, "!=": _o.ne, "**": _o.pow}[o]
+        return f(_teval(t.a[1], env), _teval(t.a[2], env))
+    if k == "bound?":
+        return getattr(_teval(t.a[1], env), t.a[0])
+    if k == "call":
+        name = t.a[0]
+        short = name.split(".")[-1]
+        pos = [_teval(a, env) for a in t.a[1] if a.k != "kw"]
+        kws = {a.a[0]: _teval(a.a[1], env) for a in t.a[1] if a.k == "kw"}
+        if name.startswith("."):
+            return getattr(pos[0], short)(*pos[1:], **kws)
+        if short == "timedelta":
+            return _dt.timedelta(*pos, **kws)
+        if short == "fromtimestamp":
+            return _dt.datetime.fromtimestamp(*pos, **kws)
+        if short == "utcfromtimestamp":
+            return _dt.datetime.utcfromtimestamp(*pos, **kws)
+        if short == "datetime":
+            return _dt.datetime(*pos, **kws)
+        if short in ("floor", "ceil", "trunc"):
+            return getattr(_m, short)(*pos)
+        if short == "round":
+            return round(*pos)
+        if short in ("int", "float"):
+            return {"int": int, "float": float}[short](*pos)
+        raise ValueError(f"call {name}")
+    raise ValueError(f"term {k}")
+
+
+def check_datetime_view(ck, fn, dt_term):
+    """the UTC-datetime view == 1958-01-01T00:00:00Z + days + milliseconds, on witness field values on both sides of the
+    Unix epoch (the view is computed through float seconds: 1 microsecond of rounding is tolerated, never a millisecond)"""
+    import datetime as _dt
+    what = "UTC-datetime view == 1958-01-01T00:00:00Z + days + milliseconds (also before 1970)"
+    ref0 = _dt.datetime(1958, 1, 1, tzinfo=_dt.timezone.utc)
+    wit = ((0, 0), (0, 1), (0, 999), (0, 1001), (100, 1500), (4382, 86399999), (4382, 500), (4382, 86399001), (4383, 0), (4383, 1), (4383, 999),
+           (20000, 43200123), (30000, 86399999), (65535, 86399999))
+    try:
+        for d_, m_ in wit:
+            got = _teval(dt_term, {"ccsds_days": d_, "ms_of_day": m_})
+            want = ref0 + _dt.timedelta(days=d_, milliseconds=m_)
+            if not isinstance(got, _dt.datetime):
+                ck.unknown("I-INT", fn, what, f"the view evaluates to a {type(got).__name__}")
+                return
+            if got.tzinfo is None:
+                got = got.replace(tzinfo=_dt.timezone.utc)
+            if abs(got - want) > _dt.timedelta(microseconds=1):
+                ck.refuted("I-INT", fn, what, f"for day count {d_} and millisecond {m_} the view is {got.isoformat()}, reference {want.isoformat()} ({show(dt_term)[:120]})",
+                           witness={"ccsds_days": d_, "ms_of_day": m_})
+                return
+    except Exception as e:  # noqa: BLE001
+        ck.unknown("I-INT", fn, what, f"view term not evaluable: {e}: {show(dt_term)[:100]}")
+        return
+    ck.assume("I-INT", fn, what, f"float arithmetic is not decided in general; {len(wit)} witness field values on both sides of 1970 evaluate correctly")
+
+
 # whole-millisecond instants whose fraction is not a binary fraction, one just below a second boundary with a
 # sub-millisecond part, and one before 1970: (unix seconds as the float datetime.timestamp() returns, exact microsecond)
 _FLOAT_WITNESSES = ((1577880000.001, 1000), (1577880000.998, 998000), (1577880000.9996, 999600), (-86400.75 + 0.0, 250000), (1577880000.5, 500000))
@@ -311,6 +396,12 @@ def run(ck):
         ck.verdict("I-INT", "CdsShortTimestamp._calculate_unix_seconds", "unix seconds == 86400*(days-4383) + ms/1000 on every path", probs, f"{lin!r}")
         r = call_method(it, env, ts, "as_unix_seconds")
         ck.verdict("W-VAL", "CdsShortTimestamp.as_unix_seconds", "returns the stored unix seconds", [] if r == us else [show(r)[:60]], "identity", nontrivial=False)
+        # datetime view
+        try:
+            dtv = call_method(it, env, ts, "as_datetime") if "as_datetime" in P.cls(f"{CDS}.CdsShortTimestamp").methods else call_method(it, env, ts, "as_date_time")
+            check_datetime_view(ck, "CdsShortTimestamp.as_datetime", dtv)
+        except Unsupported as e:
+            ck.unknown("I-INT", "CdsShortTimestamp.as_datetime", "datetime view analysed", str(e))
     # ---------------------------------------------------------------- constants
     it = new_interp(P)
     want_days = -(datetime.date(1970, 1, 1) - datetime.date(1958, 1, 1)).days
